@@ -647,6 +647,15 @@ def classify(ctx, v, trace, source, max_reports=5):
         if len(seen) > max_reports:
             break
         ev = json.loads(lines[ln - 1])
+        if ev.get("op") == "new":
+            what = (f"{source}: case {hdr.get('case')} ops={hdr.get('ops')} stage={hdr.get('stage')}: the COMPLETED save does not show the state it was asked to "
+                    f"persist: reopening shows ok={hdr['new'].get('ok')} {hdr['new'].get('proj')}, in memory {hdr.get('mem_new')} "
+                    f"(before the save call {hdr.get('mem_pre')}), on disk before {hdr['old'].get('proj')}, save={hdr.get('save')}")
+            lib.report_violation(ctx, what, {
+                "property": PROP, "source": source, "program": {"case": hdr.get("def")}, "scenario": {"pos": "end", "mode": "c06"},
+                "header": hdr, "offending_event": ev,
+                "explanation": "after the completed save (every byte arrived) the real recovery does not show the new state"})
+            continue
         what = (f"{source}: case {hdr.get('case')} ops={hdr.get('ops')}: crash at position {ev.get('pos')} with "
                 f"{[(f['name'], f['cls'], f['len']) for f in ev.get('disk', [])]} recovered to ok={ev.get('res', {}).get('ok')} "
                 f"proj={ev.get('res', {}).get('proj')} (old={hdr.get('old', {}).get('proj')}, new={hdr.get('new', {}).get('proj')}), "
@@ -674,7 +683,7 @@ def window_signature(case, clog, ctxdir):
     recorded calls (names, offsets, data) have the same crash scenarios and - recovery being a function of the
     directory - the same recoveries: scenarios are generated and recovered once per signature."""
     h = hashlib.md5()
-    h.update(json.dumps([case["routine"], {k: v for k, v in case.items() if k not in ("id", "ops", "routine")}], sort_keys=True).encode())
+    h.update(json.dumps([case["routine"], {k: v for k, v in case.items() if k not in ("id", "ops", "routine", "base")}], sort_keys=True).encode())
     for sub in ("pre", "post"):
         root = os.path.join(ctxdir, case["id"], sub)
         files, dirs = listing(root)
@@ -688,20 +697,24 @@ def window_signature(case, clog, ctxdir):
     return h.hexdigest()
 
 
-def pipeline(ctx, cases, kd, tag, fs_consts, strict=False, source="cases"):
+def pipeline(ctx, cases, kd, tag, fs_consts, strict=False, source="cases", ctxdir=None):
     """cases -> (verdict, trace path, number of scenarios)"""
-    ctxdir = ctx.path(f"{tag}_ctx")
+    ctxdir = ctxdir or ctx.path(f"{tag}_ctx")
     os.makedirs(ctxdir, exist_ok=True)
     logs = run_histories(ctx, cases, ctxdir, tag=tag)
     reps, seen = [], {}
+    ctx.c06_sig = getattr(ctx, "c06_sig", {})
     for c in cases:
         sig = window_signature(c, logs[c["id"]], ctxdir)
+        ctx.c06_sig[c["id"]] = sig
         if sig in seen:
             seen[sig].append(c["id"])
         else:
             seen[sig] = [c["id"]]
             reps.append(c)
     ctx.stage("windows", cases=len(cases), distinct_save_windows=len(reps))
+    ctx.c06_reps = getattr(ctx, "c06_reps", {})
+    ctx.c06_reps[tag] = reps
     ctx.cov.setdefault("distinct_save_windows", {})[tag] = len(reps)
     scn, n, gen = gen_scenarios(ctx, reps, logs, strict, fs_consts, tag)
     trace = ctx.path(f"{tag}_trace.ndjson")
@@ -713,13 +726,62 @@ def pipeline(ctx, cases, kd, tag, fs_consts, strict=False, source="cases"):
     return v, trace, scn, n, gen, logs, ctxdir
 
 
+def stage2_cases(ctx, base_cases, logs, plan2, seed, max_per_routine):
+    """Two-stage histories: start from post-crash directories of first-stage saves (leftover temporary files and all).
+    base_cases: representatives of first-stage save windows; plan2: {routine: [op sequences ending in a save]}.
+    The directories come from T_CrashFS in coarse mode (every position x {full, zeros, stale, a few prefix lengths})."""
+    coarse = dict(FS_CONSTS, FineLimit=0, SampleN=1, SampleSeed=seed)
+    scn, n, _ = gen_scenarios(ctx, base_cases, logs, False, coarse, "b")
+    by_id = {c["id"]: c for c in base_cases}
+    seen, per = set(), {}
+    for line in lib.read_lines(scn):
+        sc = json.loads(line)
+        if sc["pos"] == 0 or not any(f["born"] or f["cls"] != "durable" for f in sc["files"]):
+            continue      # the directory before the save: that is a longer first-stage history
+        base = by_id[sc["case"]]
+        par = {k: v for k, v in base.items() if k not in ("id", "ops", "routine")}
+        # one directory per (position, outcome class of every file): of the prefix outcomes the empty one and one other
+        desc = json.dumps([base["routine"], par, base["ops"], sc["pos"],
+                           sorted((re.sub(r"\.\d+\.\d+\.tmp$", ".N.tmp", f["name"]), f["cls"], f["len"] == 0, f["mt"]) for f in sc["files"])])
+        h = hashlib.md5(desc.encode()).hexdigest()
+        if h in seen:
+            continue
+        seen.add(h)
+        per.setdefault(base["routine"], []).append((h, base, par, sc))
+    cases2 = []
+    for routine, items in sorted(per.items()):
+        items.sort(key=lambda x: hashlib.md5((x[0] + str(seed)).encode()).hexdigest())     # seeded choice when capped
+        combos = [(it, ops) for it in items for ops in plan2.get(routine, [])]
+        cap = max_per_routine.get(routine, 200) if isinstance(max_per_routine, dict) else max_per_routine
+        if len(combos) > cap:
+            # keep every base directory at least once (with a seeded choice of its second history), then fill up
+            first, rest = {}, []
+            for c in sorted(combos, key=lambda c: hashlib.md5((c[0][0] + "/".join(c[1]) + str(seed)).encode()).hexdigest()):
+                if c[0][0] in first:
+                    rest.append(c)
+                else:
+                    first[c[0][0]] = c
+            combos = (list(first.values()) + rest)[:cap]
+        for k, ((h, base, par, sc), ops) in enumerate(combos):
+            cases2.append(dict(par, id=f"{routine}2-{k + 1:05d}", routine=routine, ops=ops,
+                               base={"def": base, "scn": {"pos": sc["pos"], "dirs": sc["dirs"], "files": sc["files"]}}))
+        ctx.stage("stage2", routine=routine, base_directories=len(items), second_histories=len(plan2.get(routine, [])),
+                  cases=sum(1 for c in cases2 if c["routine"] == routine))
+    return cases2
+
+
 def replay(ctx, kd):
     obj = json.load(open(ctx.replay))
     case = dict(obj["program"]["case"])
     case.setdefault("id", "replay-1")
     consts = dict(FS_CONSTS)
+    ctxdir = ctx.path("rp_ctx")
+    os.makedirs(ctxdir, exist_ok=True)
+    if "base" in case:
+        # second-stage case: its start directory is built from the first-stage case's recorded calls
+        run_histories(ctx, [case["base"]["def"]], ctxdir, tag="rpb")
     v, trace, scn, n, gen, logs, _ = pipeline(ctx, [case], kd, "rp", consts, strict=(obj.get("scenario", {}).get("mode") == "dirops_prefix"),
-                                              source="replay")
+                                              source="replay", ctxdir=ctxdir)
     lines = lib.read_lines(trace)
     print(lines[0])
     for ln in v["violations"][:10]:
@@ -835,6 +897,8 @@ def run_(ctx):
                 ("disk", 3, 3, [{"subdirs": s_, "bg": b_} for s_ in (True, False) for b_ in (False, True)]),
                 ("journal", 4, 3, [{}])]
         nstrict = 2
+        base_depth, max2 = 3, {"res": 600, "journal": 200, "lru": 250, "index": 150, "disk": 200}
+        consts2 = dict(consts, FineLimit=0, SampleN=2)
     else:
         consts["SampleN"] = 40
         consts["FineLimit"] = 16384
@@ -844,6 +908,8 @@ def run_(ctx):
                 ("res", 4, 3, [{"nb": 2, "direct": True}], "resdirect"),
                 ("disk", 4, 3, [{"subdirs": s_, "bg": b_} for s_ in (True, False) for b_ in (False, True)]),
                 ("journal", 5, 3, [{}])]
+        base_depth, max2 = 4, 4000
+        consts2 = dict(consts)
         nstrict = 6
     shapes = model_check(ctx)
     cases = gen_cases(ctx, plan)
@@ -851,6 +917,25 @@ def run_(ctx):
     compare_shapes(ctx, shapes, cases, logs)
     classify(ctx, v, trace, "crash scenarios")
     distinct, nontrivial, per_routine = scenario_stats(scn, cases)
+    # ---- two-stage histories: a second save on top of a post-crash directory of the first
+    ops2 = {}
+    for c2 in gen_cases(ctx, [(r, 2, 3, [{}], r + "_second") for r in ("lru", "index", "res", "disk", "journal")]):
+        if not {"fill", "addf", "fresh"} & set(c2["ops"]):
+            ops2.setdefault(c2["routine"], []).append(c2["ops"])
+    base_cases, bsig = [], set()
+    for c in sorted(cases, key=lambda c: (len(c["ops"]), c["id"])):      # the shortest history of every distinct short save window
+        if len(c["ops"]) <= base_depth and "fill" not in c["ops"] and ctx.c06_sig[c["id"]] not in bsig:
+            bsig.add(ctx.c06_sig[c["id"]])
+            base_cases.append(c)
+    cases2 = stage2_cases(ctx, base_cases, logs, ops2, ctx.seed, max2)
+    v2, trace2, scn2, n2, gen2, logs2, _ = pipeline(ctx, cases2, kd, "t", consts2, source="two-stage histories", ctxdir=ctxdir)
+    classify(ctx, v2, trace2, "two-stage crash scenarios")
+    d2, nt2, pr2 = scenario_stats(scn2, cases2)
+    ctx.cov["two_stage"] = {"base_save_windows": len(base_cases), "cases": len(cases2), "distinct_save_windows": ctx.cov["distinct_save_windows"].get("t"),
+                            "scenarios": n2, "nontrivial": nt2, "per_routine": pr2,
+                            "recovered_as": {"old": v2.get("rec_old", 0), "new": v2.get("rec_new", 0), "old_equals_new": v2.get("rec_same", 0)}}
+    n, gen, distinct, nontrivial = n + n2, gen + gen2, distinct + d2, nontrivial + nt2
+    cases_all = cases + cases2
     # samples: one non-trivial scenario per routine with what the real recovery showed
     lines = lib.read_lines(trace)
     seen_r = set()
@@ -878,7 +963,7 @@ def run_(ctx):
     ctx.cov["resave_reload_differs_informational"] = rs
     if rs.get("journal") and "F06c" in kd:
         lib.note_known(ctx, "F06c", rs["journal"])
-    finish_args = dict(n=n, nontrivial=nontrivial, distinct=distinct, gen=gen, per_routine=per_routine, v=v, cases=cases, consts=consts)
+    finish_args = dict(n=n, nontrivial=nontrivial, distinct=distinct, gen=gen, per_routine=per_routine, v=v, cases=cases_all, consts=consts)
     if ctx.violations:
         # the verdict is in: no self-test / informational stage on a tree that violates the property
         return finish(ctx, **finish_args)
